@@ -29,13 +29,13 @@ def tasks(tier, seed):
     fsrc = open(os.path.join(HERE, 'harness', 'c09_file.cpp')).read().replace('#include "c09_codes.inc"\n', codes_inc())
     for cut in ((0, 3) if tier == 'quick' else (0, 1, 3, 9, 20)):
         ts.append(Task('unknown.cut%d' % cut, '#define CUT %d\n' % cut + fsrc, 'h_unknown', None,
-                       opts=dict(validate=False, extra=['zlib_stub.cpp'], max_wall=1500, max_steps=30000000, enum_limit=400),
+                       opts=dict(validate=False, extra=['zlib_stub.cpp'], limit_is_hang=True, max_wall=1500, max_steps=6000000, enum_limit=400),
                        desc='hand-assembled uncompressed stream [CanMessage][filler 0..3][unknown object: symbolic type code not assigned '
                             'by the format (all such 32-bit codes), declared size in {16,17,19,32,40}, arbitrary body][filler 0..2]'
                             '[AppText] in %s, read through the whole pipeline: both known objects delivered unmodified, in '
                             'order, then null' % ('one container' if cut == 0 else 'two containers split %d bytes before the end of the unknown object' % cut),
                        reach=('h_unknown:end',), bounds='filler <= 3 bytes; unknown sizes {16,17,19,32,40}',
-                       kinds={'assert', 'memory', 'uncaught_exception', 'terminate', 'deadlock', 'limit'}))
+                       kinds={'assert', 'memory', 'uncaught_exception', 'terminate', 'deadlock', 'hang', 'limit'}))
     meta = dict(
         level='model_checking',
         explanation='(a) The 4-byte-window signature matcher with -3/-2/-1 back-off is executed on fully symbolic filler bytes; z3 '
